@@ -17,6 +17,7 @@ pub mod c15;
 pub mod c17;
 pub mod c18;
 pub mod c19;
+pub mod c20;
 
 pub fn dispatch(ctx: &mut Ctx) -> bool {
     match ctx.prop.as_str() {
@@ -37,6 +38,7 @@ pub fn dispatch(ctx: &mut Ctx) -> bool {
         "C17" => c17::run(ctx),
         "C18" => c18::run(ctx),
         "C19" => c19::run(ctx),
+        "C20" => c20::run(ctx),
         // self-tests of the watchdog (not registered checks)
         "ZDEADLOCK" => ctx.case("block", 0, |_c, _r| { let (_tx, rx) = std::sync::mpsc::channel::<u8>(); let _ = rx.recv_timeout(std::time::Duration::from_secs(3600)); }),
         "ZSPIN" => ctx.case("spin", 0, |_c, _r| { let mut x = 0u64; loop { x = x.wrapping_mul(3).wrapping_add(1); if x == 7 { std::hint::black_box(x); } } }),
